@@ -66,6 +66,14 @@ def handlers : List (String × Handler) := [
     pure (exceptToJson (fun (x : Rat × List Rat × Int × List Int) =>
       Json.mkObj [("spacing", ratToJson x.1), ("position", ratsToJson x.2.1), ("slices", (x.2.2.1 : Json)),
                   ("frame_slices", intsToJson x.2.2.2)]) r)),
+  ("seriesVolumePositions", fun j => do
+    let rows ← getRows j "positions"
+    let oris ← getRows j "orientations"
+    let eo ← getOpts j
+    let r : Except ErrKind (Option (Rat × List Int)) := do
+      let o ← eo
+      seriesVolumePositions (oris.zip rows) (← (pure o.hint : Except ErrKind (Option Rat))) o
+    pure (exceptToJson resJson r)),
   ("uniqueRows", fun j => do
     let rows ← getRows j "positions"
     match rowsToV3 rows with
